@@ -55,8 +55,8 @@ class LeakyTanh(AbstractBijection):
 
     def __init__(self, max_val: float | int, shape: tuple[int, ...] = ()):
         self.max_val = float(max_val)
-        self.linear_grad = math.exp(_tanh_log_grad(max_val))
-        self.intercept = math.tanh(max_val) - self.linear_grad * max_val
+        self.linear_grad = math.exp(_tanh_log_grad(self.max_val))
+        self.intercept = math.tanh(self.max_val) - self.linear_grad * self.max_val
         self.shape = shape
 
     def transform(self, x, condition=None):
